@@ -172,6 +172,18 @@ CHECKS = {
         "6144/2048 sizes, on concrete validation vectors each run). Validity predicate: the masked payload contains no default-key "
         "header and no second guard marker.",
         ref="§4 C17"),
+    "C10": dict(
+        text="(1) z3 decides over the rule table of the loaded grammar (246 productions after EBNF expansion, symbolic production index) that "
+        "every production reachable from `start` is regenerated with its own keyword sequence, i.e. no (tree label, kept-children shape) "
+        "group — the key under which lark's tree matcher keeps only the first production — mixes two token sequences; a witness is "
+        "turned into a sentence and replayed through the real from_text/as_text. (3) as_text's layout generator is interpreted over the "
+        "model token stream of 9/14 statement and block skeletons whose string literals hold 1..3/4 symbolic characters (any valid STRING "
+        "body): the text re-tokenises to the same token sequence with every literal preserved character for character.",
+        note="Trusted: z3; symx; the grammar-table model of lark (parser, contextual lexer, Earley tree matcher are third party and not "
+        "encoded) — validated each run by pushing a minimal sentence for EVERY reachable production through the real parser, "
+        "reconstructor and lexer and comparing with the model's prediction (a disagreement is a harness error); lexer model for the "
+        "re-tokenisation. The production '# dns_resolver' can never be lexed (comment) and is outside 'accepted by the parser'.",
+        ref="§4 C10"),
 }
 
 NA = {}
